@@ -280,12 +280,113 @@ theorem cast_jointLogRatio : ∀ bs : List Block, (∀ b ∈ bs, b.ok) →
     · simp only [hj]
       simp [ih]
 
+/-! ### The joint jump acts blockwise -/
+
+theorem applyJump_length : ∀ (ps : List Nat) (vs : List Val) (pos : List Val),
+    (applyJump pos ps vs).length = pos.length
+  | [], _, _ => by simp [applyJump]
+  | _ :: _, [], _ => by simp [applyJump]
+  | p :: ps, v :: vs, pos => by
+    simp only [applyJump]
+    rw [applyJump_length ps vs]; simp
+
+theorem applyJump_of_not_mem : ∀ (ps : List Nat) (vs : List Val) (pos : List Val) (j : Nat),
+    j ∉ ps → (applyJump pos ps vs)[j]? = pos[j]?
+  | [], _, _, _, _ => by simp [applyJump]
+  | _ :: _, [], _, _, _ => by simp [applyJump]
+  | p :: ps, v :: vs, pos, j, h => by
+    simp only [applyJump]
+    have hp : p ≠ j := fun e => h (by simp [e])
+    rw [applyJump_of_not_mem ps vs _ j (fun hm => h (List.mem_cons_of_mem _ hm)),
+      List.getElem?_set_ne hp]
+
+theorem applyJump_of_mem : ∀ (ps : List Nat) (vs : List Val) (pos : List Val),
+    ps.Nodup → vs.length = ps.length → (∀ p ∈ ps, p < pos.length) →
+    ∀ k (hk : k < ps.length), (applyJump pos ps vs)[ps[k]]? = vs[k]?
+  | [], _, _, _, _, _, k, hk => by simp at hk
+  | _ :: _, [], _, _, hl, _, _, _ => by simp at hl
+  | p :: ps, v :: vs, pos, hnd, hl, hr, k, hk => by
+    simp only [applyJump]
+    have hnd' := List.nodup_cons.mp hnd
+    cases k with
+    | zero =>
+      simp only [List.getElem_cons_zero, List.getElem?_cons_zero]
+      rw [applyJump_of_not_mem ps vs _ p hnd'.1,
+        List.getElem?_set_self (hr p (List.mem_cons_self ..))]
+    | succ k =>
+      simp only [List.getElem_cons_succ, List.getElem?_cons_succ]
+      exact applyJump_of_mem ps vs _ hnd'.2 (by simpa using hl)
+        (fun q hq => by rw [List.length_set]; exact hr q (List.mem_cons_of_mem _ hq)) k
+        (by simpa using hk)
+
+theorem jointJump_length : ∀ (zs : List (PropSt × List Val)) (pos : List Val),
+    (jointJump pos (zs.map (·.1)) (zs.map (·.2))).length = pos.length
+  | [], _ => by simp [jointJump]
+  | z :: zs, pos => by
+    simp only [List.map_cons, jointJump]
+    rw [jointJump_length zs]
+    split
+    · exact applyJump_length _ _ _
+    · rfl
+
+/-- A parameter that belongs to no constituent that is due keeps its value. -/
+theorem jointJump_untouched : ∀ (zs : List (PropSt × List Val)) (pos : List Val) (j : Nat),
+    (∀ z ∈ zs, z.1.callJump = true → j ∉ z.1.cfg.params) →
+    (jointJump pos (zs.map (·.1)) (zs.map (·.2)))[j]? = pos[j]?
+  | [], _, _, _ => by simp [jointJump]
+  | z :: zs, pos, j, h => by
+    simp only [List.map_cons, jointJump]
+    rw [jointJump_untouched zs _ j (fun w hw => h w (List.mem_cons_of_mem _ hw))]
+    split
+    · rename_i hd
+      exact applyJump_of_not_mem _ _ _ j (h z (List.mem_cons_self ..) hd)
+    · rfl
+
+/-- Well-formed joint proposal on a position vector: every constituent's parameter list is
+    duplicate-free and in range, its jump returns one value per parameter, and the blocks of
+    different constituents are disjoint (`JointProposal.__init__` rejects repeated parameters). -/
+structure BlocksOK (n : Nat) (zs : List (PropSt × List Val)) : Prop where
+  nodup : ∀ z ∈ zs, z.1.cfg.params.Nodup
+  range : ∀ z ∈ zs, ∀ p ∈ z.1.cfg.params, p < n
+  len : ∀ z ∈ zs, z.2.length = z.1.cfg.params.length
+  disj : zs.Pairwise (fun a b => ∀ p ∈ a.1.cfg.params, p ∉ b.1.cfg.params)
+
+theorem BlocksOK.tail {n : Nat} {z : PropSt × List Val} {zs : List (PropSt × List Val)}
+    (h : BlocksOK n (z :: zs)) : BlocksOK n zs :=
+  ⟨fun w hw => h.nodup w (List.mem_cons_of_mem _ hw), fun w hw => h.range w (List.mem_cons_of_mem _ hw),
+    fun w hw => h.len w (List.mem_cons_of_mem _ hw), (List.pairwise_cons.mp h.disj).2⟩
+
+/-- The block of a constituent that is due is exactly what its own `_jump` returned. -/
+theorem jointJump_block : ∀ (zs : List (PropSt × List Val)) (pos : List Val),
+    BlocksOK pos.length zs → ∀ z ∈ zs, z.1.callJump = true →
+    ∀ k (hk : k < z.1.cfg.params.length),
+      (jointJump pos (zs.map (·.1)) (zs.map (·.2)))[z.1.cfg.params[k]]? = z.2[k]?
+  | [], _, _, z, hz, _, _, _ => by simp at hz
+  | z0 :: zs, pos, hok, z, hz, hd, k, hk => by
+    simp only [List.map_cons, jointJump]
+    rcases List.mem_cons.mp hz with rfl | hz'
+    · simp only [hd, if_true]
+      rw [jointJump_untouched zs _ _ (fun w hw _ =>
+        (List.pairwise_cons.mp hok.disj).1 w hw _ (List.getElem_mem hk))]
+      exact applyJump_of_mem _ _ _ (hok.nodup _ (List.mem_cons_self ..))
+        (hok.len _ (List.mem_cons_self ..)) (hok.range _ (List.mem_cons_self ..)) k hk
+    · have hlen : (if z0.1.callJump = true then applyJump pos z0.1.cfg.params z0.2 else pos).length
+          = pos.length := by
+        split
+        · exact applyJump_length _ _ _
+        · rfl
+      exact jointJump_block zs _ (by rw [hlen]; exact hok.tail) z hz' hd k hk
+
 /-! ### Detailed balance and stationarity on a finite state space -/
 
 section Kernel
 variable {S : Type*} [Fintype S] [DecidableEq S]
 
-/-- The Metropolis–Hastings acceptance probability for weights `f` and proposal kernel `q`. -/
+/-- The Metropolis–Hastings acceptance probability for weights `f` and proposal kernel `q`.
+    Totalisation: for `f x * q x y = 0` Lean's `_ / 0 = 0` makes it `0`. Neither case is
+    reachable with positive probability: `q x y = 0` means `y` is never proposed from `x` (the
+    kernel multiplies by `q x y`), and `f x = 0` means the chain is at a point of zero prior,
+    which the real code refuses as a start (`Chain.setStart = none`) and never accepts. -/
 noncomputable def acceptProb (f : S → ℝ) (q : S → S → ℝ) (x y : S) : ℝ :=
   min 1 (f y * q y x / (f x * q x y))
 
